@@ -32,7 +32,8 @@ type KnownOutcome struct {
 }
 
 type Case struct {
-	Tile    *TileSpec      `json:"tile"` // tiling law: inputs to repeat along axis 0 (exec_tile.go)
+	Tile    *TileSpec      `json:"tile"`   // tiling law: inputs to repeat along axis 0 (exec_tile.go)
+	Repeat  int            `json:"repeat"` // determinism: the case is executed this many times, all results bit for bit the same
 	Prop    string         `json:"prop"`
 	Fam     string         `json:"fam"`
 	Kind    string         `json:"kind"` // op | helper | decode | gate | registry | model | sig | load | ...
